@@ -40,6 +40,8 @@ func (e *onErr) Error() string { return fmt.Sprintf("E%d", e.K) }
 
 type onClient struct {
 	c        *sched.Client
+	idx      int // client index (X spec caller idx+1)
+	xid      int // id of the call in flight in the X specs: (idx+1)*100 + program index+1
 	inflight int
 	op       onOp
 	cancel   context.CancelFunc
@@ -134,14 +136,28 @@ func (d *onDriver) blockedIDs() []int {
 	return out
 }
 
-func (d *onDriver) opFunc(c *onClient, op onOp) sched.Op {
+// blockedXIDs: the blocked callers under the X specs' ids (X-level trace validation).
+func (d *onDriver) blockedXIDs() []int {
+	out := []int{}
+	for _, c := range d.cl {
+		if c.inflight != 0 && d.x.Blocked(c.c) {
+			out = append(out, c.xid)
+		}
+	}
+	sort.Ints(out)
+	return out
+}
+
+func (d *onDriver) opFunc(c *onClient, pi int, op onOp) sched.Op {
 	x := d.x
+	xid := (c.idx+1)*100 + pi + 1
 	return sched.Op{Label: "call:" + c.c.Name, Do: func() {
 		d.nextID++
 		id := d.nextID
+		c.xid = xid
 		ctx, cancel := context.WithCancel(context.Background())
 		c.cancel, c.canc, c.op = cancel, false, op
-		x.Log(trace.E{"ev": "call", "id": id, "op": op.Op, "actor": c.c.Name})
+		x.Log(trace.E{"ev": "call", "id": id, "xid": xid, "op": op.Op, "actor": c.c.Name})
 		c.inflight = id
 		var v int
 		var err error
@@ -149,7 +165,7 @@ func (d *onDriver) opFunc(c *onClient, op onOp) sched.Op {
 			defer func() {
 				if r := recover(); r != nil {
 					c.inflight = 0
-					x.Log(trace.E{"ev": "panic", "id": id, "msg": fmt.Sprint(r), "actor": c.c.Name})
+					x.Log(trace.E{"ev": "panic", "id": id, "xid": xid, "msg": fmt.Sprint(r), "actor": c.c.Name})
 					id = 0
 				}
 			}()
@@ -173,7 +189,7 @@ func (d *onDriver) opFunc(c *onClient, op onOp) sched.Op {
 				res, v = "other", 0
 			}
 		}
-		x.Log(trace.E{"ev": "ret", "id": id, "res": res, "v": v, "actor": c.c.Name})
+		x.Log(trace.E{"ev": "ret", "id": id, "xid": xid, "res": res, "v": v, "actor": c.c.Name})
 	}}
 }
 
@@ -195,9 +211,9 @@ func (d *onDriver) Run(x *sched.Exec, raw json.RawMessage) json.RawMessage {
 		d.once = promise.NewOnce(d.fn)
 	}
 	for i, prog := range sc.Clients {
-		c := &onClient{c: x.NewClient(fmt.Sprintf("c%d", i+1))}
-		for _, op := range prog {
-			c.c.Prog = append(c.c.Prog, d.opFunc(c, op))
+		c := &onClient{c: x.NewClient(fmt.Sprintf("c%d", i+1)), idx: i}
+		for pi, op := range prog {
+			c.c.Prog = append(c.c.Prog, d.opFunc(c, pi, op))
 		}
 		d.cl = append(d.cl, c)
 	}
@@ -210,7 +226,7 @@ func (d *onDriver) Run(x *sched.Exec, raw json.RawMessage) json.RawMessage {
 			if c.inflight != 0 && c.op.Op == "resolve" && c.op.C && !c.canc {
 				ms = append(ms, sched.Move{Label: "cancel:" + c.c.Name, Do: func() {
 					c.canc = true
-					x.Log(trace.E{"ev": "cancel", "id": c.inflight})
+					x.Log(trace.E{"ev": "cancel", "id": c.inflight, "xid": c.xid})
 					c.cancel()
 				}})
 			}
@@ -246,12 +262,15 @@ func (d *onDriver) Run(x *sched.Exec, raw json.RawMessage) json.RawMessage {
 		if key == d.lastQ {
 			return
 		}
-		x.Log(trace.E{"ev": "quiet", "blk": blk})
+		x.Log(trace.E{"ev": "quiet", "blk": blk, "xblk": d.blockedXIDs()})
 		d.lastQ = fmt.Sprint(blk, x.T.Seq())
 	}
 	x.Loop(moves, observe, 120+len(x.Sched))
 
 	// teardown: cancel every Resolve in flight, make every function call finish, run free
+	if x.LogSteps {
+		x.Log(trace.E{"ev": "teardown"}) // X-level trace validation stops here
+	}
 	for _, c := range d.cl {
 		if c.inflight != 0 && c.op.Op == "resolve" && !c.canc {
 			c.canc = true
